@@ -19,6 +19,7 @@ handlers and their order, the history — is universally quantified.
 -/
 import TraitsVerif.Lemmas.AttrMore
 import TraitsVerif.Lemmas.AttrSourceTrait
+import TraitsVerif.Lemmas.AttrSourceNotify
 namespace TraitsVerif.Props.C02
 open TraitsVerif TraitsVerif.Model.Attr
 
@@ -120,11 +121,42 @@ theorem C02_setattr_trait_is_source (C : IC) (value : Option Id) (s : OSt) (dn i
       = ofInt (setattrTrait C.E C.t value s) :=
   Lemmas.AttrSource.setattr_trait_is_source C value s dn idn hdn
 
-/-- TRIPWIRE, not a tie: `call_notifiers` (three loops) is not yet proved equal to `callNotifiers`; the digest of
-its translated term pins the text `Model/SetAttr.lean` was transcribed from, so that any change of its statements,
-operators, operands or their order breaks an obligation. -/
-theorem C02_call_notifiers_skeleton_pinned :
-    Generated.AttrProg.call_notifiers_digest = "0f96e1469026ab4f9c706644bf391c67" := by
+open TraitsVerif.Model.MiniC in
+/-- `callNotifiers` is the interpretation of the source of `call_notifiers`, for all notifier lists (NULL, empty, any
+length), values, handler behaviours (raising, unregistering themselves, vetoing values) and states: nothing when
+`HASTRAITS_NO_NOTIFY` is set; otherwise the two lists are copied into one new list (loop lemmas `loop1`, `loop2`),
+which is walked with the veto test before every call and left at the first raw exception (`loop3`).
+`hveto`: the model's `veto` is "the new value is a HasTraits object whose VETO flag is set". -/
+theorem C02_call_notifiers_is_source (C : IC) (hveto : ∀ v, C.E.veto v = (C.isHT v && C.vflag v))
+    (tn on : Option (List Notifier)) (old new : Id) (s : OSt) (dn idn : Bool) :
+    call C Generated.AttrProg.call_notifiers [nlv tn .t, nlv on .o, .self, .name, .obj old, .obj new] s dn idn
+      = ofInt (callNotifiers C.E C.t tn on old new s) :=
+  Lemmas.AttrSource.call_notifiers_is_source C hveto tn on old new s dn idn
+
+open TraitsVerif.Model.MiniC in
+/-- The dispatch-snapshot property of the interpreted source (what seeded change C02-m10 violated): whatever the
+handlers do to the object's state while they are called — unregister themselves, create the instance trait,
+register others —, the notifiers called are those of `snapshot tn on`, a function of the two list VALUES at entry
+alone: the state `s` that the handlers transform is threaded through `notifyLoop` but never consulted for the list
+being walked. -/
+theorem C02_dispatch_snapshot_source (C : IC) (hveto : ∀ v, C.E.veto v = (C.isHT v && C.vflag v))
+    (tn on : Option (List Notifier)) (old new : Id) (s : OSt) (dn idn : Bool) (hnn : s.noNotify = false) :
+    call C Generated.AttrProg.call_notifiers [nlv tn .t, nlv on .o, .self, .name, .obj old, .obj new] s dn idn
+      = ofInt (notifyLoop C.E C.t old new (snapshot tn on) s) := by
+  rw [Lemmas.AttrSource.call_notifiers_is_source C hveto tn on old new s dn idn]
+  simp [callNotifiers, hnn]
+
+/-- Non-vacuity / the C02-m10 scenario on the model: two object-level handlers and no trait-level notifier; the first
+unregisters itself when called; the second still hears that change, and only the second stays registered. -/
+example :
+    let E : Env := { cmp := ⟨fun _ _ => .no, fun _ _ => .yes⟩, validate := fun _ _ v => .ok v,
+                     post := fun _ _ _ => .ok (), factory := fun _ _ _ => .error .typeError,
+                     handler := fun h _ _ => if h = 0 then .ok .removeSelf else .ok .stay,
+                     veto := fun _ => false, reraiseLegacy := false, reraiseObserve := false }
+    let t : TraitCore := { flags := mkFlags .none false false }
+    let s : OSt := { on := some [⟨.dynamic, 0, 1⟩, ⟨.dynamic, 1, 1⟩], slot := some 3 }
+    let r := callNotifiers E t none s.on 3 4 s
+    r.1 = none ∧ r.2.ctx.log.map (·.h) = [0, 1] ∧ r.2.on = some [⟨.dynamic, 1, 1⟩] := by
   decide
 
 /-! ### Exactly once -/
